@@ -14,6 +14,7 @@ R: for every generated program (nested functions, closures, source modules, buil
 import json
 
 import c02
+import c06
 import semcmp
 import semlib
 import vlib
@@ -47,7 +48,8 @@ def run(ck):
     for distinct, dups in ((300, 0), (300, 40), (245, 30), (250, 8), (254, 3), (520, 300)):
         src = "a := [" + ", ".join(str(1000 + i) for i in range(distinct)) + "]\n"
         src += "".join('d%d := "dup%d"\n' % (i, i % 3) for i in range(dups))
-        src += "x := 5\nf := func(y) { return x + y + 777000 }\ng := func() { return func() { return x * 2 } }\nout := [f(1), g()(), a[%d]]\n" % (distinct - 1)
+        src += ("mk := func() { x := 5; return func(y) { return x + y + 777000 } }\nf := mk()\n"
+                "g := func() { z := 2; return func() { return z * 5 } }\nout := [f(1), g()(), a[%d]]\n" % (distinct - 1))
         special(src)
     for kind in ("map", "array", "int", "string", "immutable-map-noname", "undefined"):
         for pre in ("", 'a := "dup"\nb := "dup"\nc := 5\nd := 5\n', 'a := "dup"\nb := "dup"\nc := "dup"\nf := func() { return "dup" }\n'):
@@ -85,7 +87,8 @@ def run(ck):
             continue
         ms = outs.get(c["id"])
         deterministic = ms is None or (len(ms) == 1 and ms[0]["k"] != "excluded")
-        key = lambda x: json.dumps({k: v for k, v in x.items() if k not in ("recovered",)}, sort_keys=True)
+        drop = ("recovered", "g") if (a.get("k") == "runtime_error" and c06.order_dependent(p)) else ("recovered",)
+        key = lambda x: json.dumps({k: v for k, v in x.items() if k not in drop}, sort_keys=True)
         if deterministic:
             if key(a) != key(b):
                 ck.violation("dedup-behaviour" + (":" + p["cell"] if p.get("cell") else ""), "raw and de-duplicated bytecode behave differently:\n%s\nraw:   %s\ndedup: %s" % (
